@@ -102,6 +102,11 @@ def judge(ctx, case, o, stats):
     exp = case["exp"]
     probe = case.get("probe", "?")
     kinds = "+".join(sorted(kinds_of(case) - {"StringRef"})) if probe == "builder" else probe
+    if probe == "lists":
+        u = case["units"][0]
+        pat = [c["val"]["list"][0]["k"] + str(len(c["val"]["list"])) for c in case["calls"]
+               if c["op"] == "set" and c["u"] == 1 and c["val"]["k"] == "RangeListRef"]
+        kinds = "lists:" + ">".join(pat) + (":lowpc" if any(c["op"] == "set" and c.get("name") == "DW_AT_low_pc" for c in case["calls"]) else "")
     if probe == "wide":
         kinds = "wide%d" % sum(1 for c in case["calls"] if c["op"] == "add" and c["u"] == 1 and c["p"] == 1)
     if case.get("mode") == "incremental":
@@ -164,13 +169,16 @@ def run(ctx):
     if q:
         runs = [("kinds", dict(Mode='"kinds"', MaxS=0, MaxM=0, MaxUnits=2, Salt=s, EmitMod=1, AllPlacements="FALSE")),
                 ("builder", dict(Mode='"builder"', MaxS=3, MaxM=1, MaxUnits=2, Salt=s, EmitMod=1, AllPlacements="FALSE")),
-                ("wide", dict(Mode='"wide"', MaxS=0, MaxM=0, MaxUnits=2, Salt=s, EmitMod=1, AllPlacements="FALSE"))]
+                ("wide", dict(Mode='"wide"', MaxS=0, MaxM=0, MaxUnits=2, Salt=s, EmitMod=1, AllPlacements="FALSE")),
+                ("lists", dict(Mode='"lists"', MaxS=0, MaxM=0, MaxUnits=2, Salt=s, EmitMod=1, AllPlacements="FALSE"))]
     else:
         runs = [("kinds", dict(Mode='"kinds"', MaxS=0, MaxM=0, MaxUnits=2, Salt=s, EmitMod=1, AllPlacements="TRUE")),
                 ("builder", dict(Mode='"builder"', MaxS=4, MaxM=1, MaxUnits=2, Salt=s, EmitMod=1, AllPlacements="FALSE")),
                 ("builder", dict(Mode='"builder"', MaxS=3, MaxM=2, MaxUnits=2, Salt=s + 1, EmitMod=5, AllPlacements="FALSE")),
                 ("wide", dict(Mode='"wide"', MaxS=0, MaxM=0, MaxUnits=2, Salt=s, EmitMod=1, AllPlacements="FALSE")),
-                ("wide", dict(Mode='"wide"', MaxS=0, MaxM=0, MaxUnits=2, Salt=s + 1, EmitMod=1, AllPlacements="FALSE"))]
+                ("wide", dict(Mode='"wide"', MaxS=0, MaxM=0, MaxUnits=2, Salt=s + 1, EmitMod=1, AllPlacements="FALSE")),
+                ("lists", dict(Mode='"lists"', MaxS=0, MaxM=0, MaxUnits=2, Salt=s, EmitMod=1, AllPlacements="FALSE")),
+                ("lists", dict(Mode='"lists"', MaxS=0, MaxM=0, MaxUnits=2, Salt=s + 1, EmitMod=1, AllPlacements="FALSE"))]
     stats = {"exp_err": 0, "same": 0, "bytes_equal": 0}
     seen_kinds = set()
     for ri, (name, consts) in enumerate(runs):
@@ -182,7 +190,7 @@ def run(ctx):
             cases.append(case)
             # the same script written unit by unit (ConvertUnit::write) and finished by Dwarf::write
             if case.get("probe") not in ("badversion", "asz3") and \
-               not (kinds_of(case) & {"LocationListRef", "RangeListRef", "FileIndex"}):
+               not (kinds_of(case) & {"FileIndex"}):
                 cases.append(dict(case, mode="incremental"))
         path = os.path.join(ctx.work, "unitw-%d-replay.ndjson" % ri)
         write_ndjson(path, cases)
